@@ -135,3 +135,18 @@ Definition run_with (tab : list (N * N)) (empty_expr : str) (t : tree) : tree :=
                         end) styles)
   | None => bad_input
   end.
+
+(* ---- T1: BIND_TEMPLATES ---- *)
+(* Python's  template % {"name": n}  restricted to what the templates use: "%%" -> "%", "%(name)s" -> n *)
+Fixpoint pyfmt (t : str) (n : str) : str :=
+  match t with
+  | 37%N :: 37%N :: r => 37%N :: pyfmt r n
+  | 37%N :: 40%N :: 110%N :: 97%N :: 109%N :: 101%N :: 41%N :: 115%N :: r => n ++ pyfmt r n
+  | c :: r => c :: pyfmt r n
+  | [] => []
+  end.
+(* the placeholder texts the model renders, in the order qmark, format, numeric, numeric_dollar, named,
+   pyformat (the two numeric templates are only pinned: _process_numeric builds ":<n>" / "$<n>" itself) *)
+Definition POSITION : str := [91;95;80;79;83;73;84;73;79;78;93]%N.   (* [_POSITION] *)
+Definition model_templates (n : name) : list str :=
+  [pos_text Qmark; pos_text Format; 58%N :: POSITION; 36%N :: POSITION; ph_text Named n; ph_text Pyformat n].
